@@ -79,6 +79,10 @@ pub fn read_wellformed(text: &str) -> Option<Scanned> {
             }
             LineKind::Comment => {
                 comments.push(body.to_string());
+                // a comment line inside a multi-line value is outside the
+                // domain of the properties (unsupported construct): a
+                // continuation line may not follow a comment
+                in_field = false;
             }
             LineKind::Field => {
                 let i = body.find(':').unwrap();
